@@ -331,6 +331,7 @@ def main():
         spec.loader.exec_module(mod)
         if write_if_changed(os.path.join(OUT, "Schemas.lean"), mod.generate(REPO, manifest)):
             changed.append("Schemas")
+        write_if_changed(os.path.join(OUT, "schemas.txt"), manifest.pop("_schemas_txt", ""))
     json.dump(manifest, open(os.path.join(OUT, "gen_manifest.json"), "w"), indent=1)
     print("translate: regenerated", changed or "nothing (unchanged)")
 
